@@ -196,9 +196,9 @@ def make_walks(g, rng, n, maxlen=12, forced=True):
     return walks[:n] if not forced else walks
 
 
-def write_gaf(path, lines, mode="plain", rng=None, layout="standard"):
+def write_gaf(path, lines, mode="plain", rng=None, layout="standard", final_newline=True):
     """mode plain | bgzf (own writer, block layout chosen) | pysam (second producer)."""
-    text = "\n".join(lines) + "\n"
+    text = "\n".join(lines) + ("\n" if final_newline else "")
     if mode == "plain":
         with open(path, "w") as f:
             f.write(text)
